@@ -7,6 +7,8 @@ import re
 import sys
 
 HERE = os.path.dirname(os.path.dirname(os.path.abspath(__file__)))
+# evidence/ and replay/ live in /verif unless a scratch run (tools/try_seed.sh) redirects them
+OUT = os.environ.get("VERIF_EVIDENCE_DIR") or HERE
 
 
 def _safe(name):
@@ -63,7 +65,7 @@ def finish(pid, prop, tier, seed, results, wall):
         undecided.append(f"{o['name']}: solver {o.get('solver_output','unknown')}")
 
     lines, violations, known_hits = [], 0, []
-    rdir = os.path.join(HERE, "replay", pid)
+    rdir = os.path.join(OUT, "replay", pid)
     groups = {}
     for o in refuted:
         groups.setdefault(o["name"], []).append(o)
@@ -112,7 +114,7 @@ def finish(pid, prop, tier, seed, results, wall):
         with open(rpath, "w") as f:
             json.dump(rec, f, indent=1, default=str)
         for oo in grp:
-            oo["replay"] = os.path.relpath(rpath, HERE)
+            oo["replay"] = os.path.relpath(rpath, OUT)
             oo["reproduced"] = reproduced
         if match:
             known_hits.append((match, o))
@@ -149,9 +151,13 @@ def finish(pid, prop, tier, seed, results, wall):
         for smp in r.get("samples", []):
             samples.append(smp)
     samples = samples[:6] or [{"note": "no sample"}]
+    solver_obs = [o for o in obs if o.get("label") != "bounded"]
+    bounded_obs = [o for o in obs if o.get("label") == "bounded"]
     cov = {
-        "obligations": len(obs),
-        "discharged": len(discharged),
+        "obligations": len(solver_obs),
+        "discharged": len([o for o in solver_obs if o["result"] == "unsat"]),
+        "bounded_native_checks": len(bounded_obs),
+        "bounded_native_checks_passed": len([o for o in bounded_obs if o["result"] == "unsat"]),
         "refuted": len(refuted),
         "refuted_listed_as_known_findings": len(known_hits),
         "undecided": len(unknown),
@@ -181,8 +187,8 @@ def finish(pid, prop, tier, seed, results, wall):
         "property_id": pid, "tier": tier if tier in ("quick", "thorough") else "quick", "seed": seed, "level": level,
         "coverage": cov, "assumptions": list(getattr(prop, "ASSUMPTIONS", [])), "wall_s": round(wall, 2), "violations": violations,
     }
-    os.makedirs(os.path.join(HERE, "evidence"), exist_ok=True)
-    with open(os.path.join(HERE, "evidence", f"{pid}.json"), "w") as f:
+    os.makedirs(os.path.join(OUT, "evidence"), exist_ok=True)
+    with open(os.path.join(OUT, "evidence", f"{pid}.json"), "w") as f:
         json.dump(ev, f, indent=1, default=str)
     print(f"[{pid}] tier={tier} obligations={len(obs)} discharged={len(discharged)} refuted={len(refuted)} "
           f"(known={len(known_hits)}) undecided={len(unknown)+len([u for u in undecided if 'solver' not in u])} guard_failures={len(guards)} wall={wall:.1f}s")
